@@ -126,6 +126,12 @@ func init() {
 				{File: "internal/exit/handler.go", Old: "\tconnCount   atomic.Int64\n", New: "\tconnCount   atomic.Int64\n\tbytesByPort map[uint64]int64\n"},
 				{File: "internal/exit/handler.go", Old: "\th.mu.Lock()\n\th.connections[streamID] = ac\n", New: "\th.mu.Lock()\n\tif h.bytesByPort == nil {\n\t\th.bytesByPort = map[uint64]int64{}\n\t}\n\th.bytesByPort[uint64(destPort)]++\n\th.connections[streamID] = ac\n"},
 			}},
+			{Name: "seed class C16-d: exit-handler test moved in front of the relay lookup in handleStreamData", ExpectRule: "C16.R4", ExpectKey: "handleStreamData relay lookup first", Edits: []Edit{
+				{File: "internal/agent/agent.go", Old: "\tupRelay, downRelay := a.tcpRelay.LookupBoth(frame.StreamID)\n", New: "\tif a.exitHandler != nil && a.exitHandler.GetConnection(frame.StreamID) != nil {\n\t\ta.exitHandler.HandleStreamData(peerID, frame.StreamID, frame.Payload, frame.Flags)\n\t\treturn\n\t}\n\tupRelay, downRelay := a.tcpRelay.LookupBoth(frame.StreamID)\n"},
+			}},
+			{Name: "stream manager consulted before the relay table in handleStreamClose", ExpectRule: "C16.R4", ExpectKey: "handleStreamClose relay lookup first", Edits: []Edit{
+				{File: "internal/agent/agent.go", Old: "\t// Check if this is a relay stream - PopMatchingPeer atomically looks up,\n\t// peer-disambiguates direction, and removes the entry under one Lock.\n\tif entry, fromUpstream := a.tcpRelay.PopMatchingPeer(frame.StreamID, peerID); entry != nil {\n\t\tdstPeer, dstID := entry.UpstreamPeer, entry.UpstreamID\n\t\tif fromUpstream {\n\t\t\tdstPeer, dstID = entry.DownstreamPeer, entry.DownstreamID\n\t\t}\n\t\tfwdFrame := &protocol.Frame{\n\t\t\tType:     protocol.FrameStreamClose,", New: "\tif a.streamMgr.GetStream(frame.StreamID) != nil {\n\t\ta.streamMgr.HandleStreamClose(frame.StreamID)\n\t\treturn\n\t}\n\tif entry, fromUpstream := a.tcpRelay.PopMatchingPeer(frame.StreamID, peerID); entry != nil {\n\t\tdstPeer, dstID := entry.UpstreamPeer, entry.UpstreamID\n\t\tif fromUpstream {\n\t\t\tdstPeer, dstID = entry.DownstreamPeer, entry.DownstreamID\n\t\t}\n\t\tfwdFrame := &protocol.Frame{\n\t\t\tType:     protocol.FrameStreamClose,"},
+			}},
 			{Name: "rewrite: operands of the peer comparison swapped", Edits: []Edit{
 				{File: "internal/agent/agent.go", Old: "if upRelay != nil && peerID == upRelay.UpstreamPeer {", New: "if upRelay != nil && upRelay.UpstreamPeer == peerID {"},
 			}},
@@ -1744,6 +1750,135 @@ func (cx *c16Ctx) c16Evaluate(ev *c16Eval) {
 	cx.c16EvalR3(ev)
 }
 
+// c16DispatchOrder (R4): in the per-frame dispatchers of the stream family the peer-validated
+// relay lookup comes first; a table keyed by the bare numeric id (exit, forward, file, shell,
+// stream-manager tables — known findings of R1) may only be consulted after it. Otherwise, on an
+// agent that is transit and exit at once, a relayed tunnel's frame whose number equals a local
+// connection's number is handed to the local handler. HEAD's UDP/ICMP dispatchers use the
+// other order (that is part of the composite-key findings), so the rule is decided as sibling
+// agreement among the stream-family handlers: the order kept by at least one sibling must be
+// kept by all of them.
+func (cx *c16Ctx) c16DispatchOrder(r *kit.Report, evs []*c16Eval) {
+	p := cx.p
+	r.Rule("C16.R4", "dispatch precedence: in every stream-family frame handler that consults both, the peer-validated relay lookup dominates every consultation of a table keyed by the bare stream id (decided as agreement among the sibling handlers)")
+	_, arms := c17FrameDispatch(p)
+	if len(arms) == 0 {
+		return // C17 reports the missing dispatcher
+	}
+	relayFns, bareFns := map[*ssa.Function]bool{}, map[*ssa.Function]bool{}
+	bareField := map[*types.Var]bool{}
+	for _, ev := range evs {
+		if ev.T.Prop != "C16" || ev.Composite {
+			continue
+		}
+		isRelay := ev.T.Type == "relayTable"
+		if !isRelay && ev.T.Class != c16PerConn && ev.T.Class != c16Unlisted {
+			continue
+		}
+		if !isRelay {
+			bareField[ev.Field] = true
+		}
+		for _, acc := range p.FieldAccessesOfKind(ev.Field, kit.MapLookup, kit.MapDelete) {
+			if isRelay {
+				if acc.Kind == kit.MapLookup {
+					relayFns[kit.TopLevel(acc.Fn)] = true
+				}
+			} else {
+				bareFns[kit.TopLevel(acc.Fn)] = true
+			}
+		}
+	}
+	reachOf := func(seed map[*ssa.Function]bool) map[*ssa.Function]bool {
+		out := map[*ssa.Function]bool{}
+		for f := range seed {
+			out[f] = true
+		}
+		for round := 0; round < 2; round++ {
+			for f := range out {
+				for _, site := range p.StaticCallers(f) {
+					out[kit.TopLevel(site.Parent())] = true
+				}
+			}
+		}
+		return out
+	}
+	relayReach, bareReach := reachOf(relayFns), reachOf(bareFns)
+	type verdict struct {
+		h    *ssa.Function
+		name string
+		ok   bool
+		bad  string
+	}
+	var vs []verdict
+	var names []string
+	for name := range arms {
+		if strings.HasPrefix(name, "Stream") {
+			names = append(names, name)
+		}
+	}
+	sort.Strings(names)
+	for _, name := range names {
+		h := arms[name]
+		var rs, bs []ssa.Instruction
+		kit.Instrs(h, func(in ssa.Instruction) {
+			switch x := in.(type) {
+			case *ssa.Lookup:
+				for _, leaf := range kit.PhiLeaves(x.X) {
+					if f, _ := kit.LoadedField(leaf); f != nil && bareField[f] {
+						bs = append(bs, in)
+					}
+				}
+			case ssa.CallInstruction:
+				cal := kit.CalleeOf(x)
+				if cal.Static == nil || cal.Static == h {
+					return
+				}
+				inR, inB := relayReach[cal.Static], bareReach[cal.Static]
+				if inR && !inB {
+					rs = append(rs, in)
+				} else if inB && !inR {
+					bs = append(bs, in)
+				}
+			}
+		})
+		if len(rs) == 0 || len(bs) == 0 {
+			continue
+		}
+		v := verdict{h: h, name: name, ok: true}
+		for _, b := range bs {
+			dominated := false
+			for _, rr := range rs {
+				if kit.Precedes(rr, b) {
+					dominated = true
+				}
+			}
+			if !dominated {
+				v.ok = false
+				v.bad = p.Pos(b.Pos())
+			}
+		}
+		vs = append(vs, v)
+	}
+	agree := 0
+	for _, v := range vs {
+		if v.ok {
+			agree++
+		}
+	}
+	r.Count("stream_dispatchers_consulting_relay_and_bare_tables", len(vs))
+	for _, v := range vs {
+		key := kit.FuncName(v.h) + " relay lookup first"
+		switch {
+		case v.ok:
+			r.OK("C16.R4", key, p.Pos(v.h.Pos()), "every bare-id table consultation in the handler of %s is dominated by the peer-validated relay lookup", v.name)
+		case agree > 0:
+			r.Violation("C16.R4", key, v.bad, "the handler of %s consults a table keyed by the bare stream id (at %s) before the peer-validated relay lookup has missed, unlike its %d sibling handler(s): on an agent that is transit and exit at once a relayed tunnel's frame whose number equals a local connection's number is handed to the local handler — bytes, closes and resets of one tunnel reach another", v.name, v.bad, agree)
+		default:
+			r.Infof("C16.R4", key, p.Pos(v.h.Pos()), "no stream-family handler consults the relay table first: no order to agree on")
+		}
+	}
+}
+
 func runC16(p *kit.Program, r *kit.Report) {
 	r.Rule("C16.R1", "collision-free keys: the key of a demultiplexing table carries a peer identity, or every insertion draws it from an allocator that lives in the same object as the table (never a bare per-connection stream id or a requester-chosen id)")
 	r.Rule("C16.R2", "peer-validated lookups: where R1 fails, every use of a looked-up entry, keyed deletion or keyed helper call in a function that knows the sending peer is reachable only through an edge on which the entry's recorded peer equals that peer")
@@ -1797,6 +1932,7 @@ func runC16(p *kit.Program, r *kit.Report) {
 		r.Count("insert_sites", ev.Inserts)
 		r.Count("frame_driven_uses_examined", ev.R2Ops)
 	}
+	cx.c16DispatchOrder(r, evs)
 	r.Count("tables_evaluated", n)
 	r.Require(n >= 12, "floor: fewer than 12 C16 tables resolved (%d)", n)
 	// positive floor: the relay table must expose peer-validated uses, otherwise R2 sees nothing
